@@ -26,6 +26,9 @@ Definition vtop : vop sv := VTop _.
 Definition vunit : vout sv := OUnit _.
 Definition vfull : vout sv := OFull _.
 Definition voob a b : vout sv := OOob _ a b.
+(* the implementation panicked during this operation: an output that neither the model nor the specification ever
+   produces (their OOob carries the capacity, which is >= 1), so the case gets codes 1 and 2 *)
+Definition vpanicked : vout sv := OOob _ 0 0.
 
 Definition vout_eqb (a b : vout sv) : bool :=
   match a, b with
